@@ -26,7 +26,7 @@ CONFIGS = [("default-lru-512", {}), ("lru-1", {"query_cache_decorator": lru_cach
 async def explore(tier, seed):
     rng = random.Random(seed * 7 + 16)
     stats = {"evaluations": 0, "histories": 0, "nontrivial": set(), "problems": [], "samples": [], "kinds": {}}
-    nschemas, nhist = (6, 6) if tier == "quick" else (40, 30)
+    nschemas, nhist = (fw.scale(6), 6) if tier == "quick" else (fw.scale(40), 30)
     t0 = time.time()
     for si in range(nschemas):
         if time.time() - t0 > (100 if tier == "quick" else 1500): break
